@@ -697,13 +697,15 @@ def _rebuild_F(a):
 
 def _rebuild_I(a):
     # ('I', multiplier monomial, spectrum, n): linear in the spectrum part
+    # ... and in the multiplier: a substitution may turn the multiplier monomial into a sum (k0^2/|k|^2 -> 1 - k1^2/|k|^2)
     out = Poly()
-    for c, const, var in split_terms(a[2], lambda b: varies(b) and not is_multiplier_atom(b)):
-        if not var and not const and False:
-            continue
-        out = out + Poly({const: c}) * Poly.atom(("I", a[1], Poly({var: ONE})) + tuple(a[3:]))
     if a[1].is_zero():
         return Poly()
+    mults = list(split_terms(a[1], varies)) if len(a[1].t) > 1 else [(ONE, (), None)]
+    for c, const, var in split_terms(a[2], lambda b: varies(b) and not is_multiplier_atom(b)):
+        for mc, mconst, mvar in mults:
+            M = a[1] if mvar is None else Poly({mvar: ONE})
+            out = out + Poly({const: c}) * Poly({mconst: mc}) * Poly.atom(("I", M, Poly({var: ONE})) + tuple(a[3:]))
     return out
 
 
